@@ -370,6 +370,8 @@ class Interp:
                     v = v.cur if p[1] == 0 else v.end
                 elif isinstance(v, int) and p[1] == 0:
                     v = v  # scalar constant of a single-field newtype (e.g. `Phi(u8)`)
+                elif type(v).__name__ == "StrBuf" and p[1] == 0:
+                    v = v  # Box<str> modelled by its string: the box's pointer fields are transparent
                 else:
                     raise Unsupported("field %r of %r" % (p, v))
             elif k == "i":
@@ -568,6 +570,14 @@ class Interp:
             return Slice(raw, 0, len(raw))
         if "static" in k:
             return self.static_ref(k["static"])
+        if "item" in k and "pidx" not in k and ("indirect" in k or "slice" in k):
+            c = self.P.consts.get(self.P.norm(k["item"], False))
+            if c is not None and ("bytes" in c or "str" in c or "v" in c):
+                kk = {x: c[x] for x in c if x in ("v", "sv", "bytes", "esz", "str")}
+                kk["ty"] = ty
+                if "bytes" in kk and ty.startswith("&") and not c.get("ty", "").startswith("&"):
+                    pass
+                return self.const(kk, fr)
         if "item" in k and "pidx" not in k and fr is not None and fr.gen:
             # associated constant of a trait, reached through a generic parameter: `S::NAME`
             item = self.P.norm(k["item"], False)
@@ -874,6 +884,8 @@ class Interp:
     def transmute(self, v, ty):
         if isinstance(v, UninitBox):
             return v
+        if type(v).__name__ == "StrBuf" and ty.startswith("*"):
+            return v  # Box<str> modelled by its string: the pointer read out of it is the string
         if isinstance(v, Vec):
             if ty.startswith("[u8;") or ty.startswith("[i8;"):
                 return [wrap(x, "i8" if ty.startswith("[i8") else "u8") for x in v.b]
@@ -1015,6 +1027,25 @@ class Interp:
         body = P.fns.get(name)
         if body is None and (fr is None or fr.fn is None or fr.fn.crate == "bin"):
             body = P.fns.get("bin::" + name)
+        if body is not None and "::" in name and not body.raw.get("self_ty") and body.kind == "assoc":
+            # `name` is a trait's provided (default) method: an impl for the receiver's type may override it
+            tr_, meth_ = name.rsplit("::", 1)
+            impls_ = P.trait_impls().get((tr_, meth_), [])
+            if impls_ and args:
+                recv_ = args[0]
+                for _ in range(3):
+                    if isinstance(recv_, Ref):
+                        try:
+                            recv_ = self.read_path(recv_.frame, recv_.local, recv_.path)
+                        except Exception:
+                            break
+                rpath_ = recv_.path if isinstance(recv_, Adt) else None
+                if rpath_:
+                    for fid_ in impls_:
+                        st_ = P.fns[fid_].raw.get("self_ty", "")
+                        if P.norm(st_.split("<", 1)[0], False) == rpath_:
+                            body = P.fns[fid_]
+                            break
         if body is None and name.startswith("<") and " as " in name:
             # the bin crate prints std traits of lib impls with their private `core::..` path:
             # match on (self type, last trait segment, method)
